@@ -619,37 +619,12 @@ def known_finding(case, obs, model):
     if obs == [-1, sum(map(ord, "IndentationError"))] and (
             any(_silent(b) for b in _bodies(case["prog"])) or (_silent(case["prog"]) and not case["rst"])):
         return EMPTY_ID
-    # the model follows the code for brace fills (ValueError at run time, C20_emit_brace_fill_refuted);
-    # a disagreement on such a case belongs to the same finding
-    if any(ch[0] == "fld" and ch[2][:1] in ("{", "}") and ch[2][1:2] in ("<", ">", "=")
-           for f in _formats(case["prog"]) for ch in f):
+    # a '{' or '}' fill is accepted by Format and formatted by Python (model = spec), but the simulator's
+    # re-assembled format string is malformed: ValueError (code 4) when the statement runs
+    if obs[:1] == [4] and any(ch[0] == "fld" and ch[2][:1] in ("{", "}") and ch[2][1:2] in ("<", ">", "=")
+                              for f in _formats(case["prog"]) for ch in f):
         return BRACE_ID
     return None
-
-
-def extra(tier, seed, findings):
-    """property-level check of the clause the faithful model refutes (C20_emit_brace_fill_refuted):
-    an accepted spec whose fill is '{' or '}' must print what str.format prints."""
-    from common import setup_env
-    setup_env()
-    viol = []
-    seen = 0
-    for spec, v in (("{<5", 5), ("}>4d", 7), ("{=6x", 255)):
-        case = {"k": "sim", "cls": "print+brace", "sigs": [[8, False]], "pos": True, "rst": False,
-                "prog": [["print", [["fld", ["sig", 0], spec]]]], "steps": [["set", 0, v], ["clk", 1]]}
-        obs = _run_sim(case)
-        exp = [0, 2] + _pack(format(v, spec) + "\n")
-        if obs != exp:
-            seen += 1
-            listed = [f for f in findings if f.get("property") == ID and f.get("id") == BRACE_ID and f.get("status") == "open"]
-            if listed:
-                if seen == 1:
-                    viol.append({"known": f"{BRACE_ID}: {listed[0].get('what', '')}"})
-            elif seen == 1:
-                viol.append({"property": ID, "kind": "input", "case": case, "expected_by_model": exp, "observed": obs,
-                             "explain": "spec accepted by Format with a '{'/'}' fill: simulation must print format(v, spec); "
-                                        "see Props/C20.v C20_emit_brace_fill_refuted. " + explain(case)})
-    return viol, {"brace_fill_probe": {"probes": 3, "failing": seen}}
 
 
 # ------------------------------------------------------------------ shrinking (simulator build failures only)
@@ -686,23 +661,31 @@ def _stmt_variants(stmts):
 
 
 def shrink(case, obs, model):
-    """greedy structural shrinking of a design the simulator refuses to build (the observation is an exception raised
-    by Simulator(m), independent of the stimulus); other mismatches are replayed as generated"""
-    if case["k"] != "sim" or obs[:1] != [-1]:
+    """greedy structural shrinking of a simulation that shows a known finding (drop/simplify statements, drop
+    steps, as long as the same finding is still observed); other mismatches are replayed as generated"""
+    fid = known_finding(case, obs, model) if case["k"] == "sim" else None
+    if fid is None:
         return case, obs, model
-    cur = dict(case, steps=[])
-    if run_impl(cur) != obs:
-        cur = case
+
+    def still(c):
+        o = run_impl(c)
+        return o if isinstance(o, list) and known_finding(c, o, None) == fid else None
+
+    cur, cur_obs = case, obs
     progress = True
     while progress:
         progress = False
-        for prog in _stmt_variants(cur["prog"]):
-            cand = dict(cur, prog=prog)
-            if prog and run_impl(cand) == obs and known_finding(cand, obs, None) == known_finding(case, obs, None):
-                cur, progress = cand, True
+        cands = [dict(cur, prog=p) for p in _stmt_variants(cur["prog"]) if p]
+        if cur["steps"]:
+            cands.insert(0, dict(cur, steps=[]))
+            cands += [dict(cur, steps=cur["steps"][:i] + cur["steps"][i + 1:]) for i in range(len(cur["steps"]))]
+        for cand in cands:
+            o = still(cand)
+            if o is not None:
+                cur, cur_obs, progress = cand, o, True
                 break
     import common as C
-    mism, errors = C.run_model(ID + "_shrink", RUN_MODULE, [coq_term(cur)], [obs], shard_size=SHARD)
+    mism, errors = C.run_model(ID + "_shrink", RUN_MODULE, [coq_term(cur)], [cur_obs], shard_size=SHARD)
     if errors or 0 not in mism:
         return case, obs, model
-    return cur, obs, mism[0]
+    return cur, cur_obs, mism[0]
